@@ -59,6 +59,7 @@ func c10(c *Ctx) {
 	r.Declines("the numeric value of the budget, the exact number and distinctness of the chosen CPUs, the step limit arithmetic")
 
 	c10system(c)
+	c10filters(c)
 
 	// ---- DIV
 	r.Rule("DIV: every integer / and % in package cpusuppress (thorough: plus qosmanager/helpers and util/cpuset) has a divisor that is a non-zero constant or is dominated by a branch outcome implying non-zero for the same value / the same len(x)")
@@ -532,6 +533,80 @@ func c10calcBE(c *Ctx, fn *ssa.Function) {
 	}
 	r.Check(sys && res && lse, "PATH", fkey(fn)+"/exclusion-sources", c.Pos(fn.Pos()), "system-exclusive, reserved and LSE-owned CPUs all enter the exclusion map",
 		sprintf("exclusion map is not fed from all three sources: system-exclusive=%v reserved=%v LSE-pods=%v", sys, res, lse))
+	// each of the two node-level sources enters the map on its own: whenever it was read without error (and is not
+	// empty), a loop over exactly that set writes the map - whatever the other source holds
+	r.Rule("PATH(independent sources): in calcBECPUSet, for the system-exclusive set (getSystemQOSExclusiveCPU) and for the node-reserved set (cpuset.Parse of GetReservedCPUs) separately: once the set was obtained without error and is not empty, no return is reachable without ToSliceNoSort() on that very set (not on a merge with the other one) feeding the exclusion map")
+	for _, src := range []struct{ name, callee, arg string }{{"system-exclusive", "getSystemQOSExclusiveCPU", ""}, {"node-reserved", "Parse", "GetReservedCPUs"}} {
+		var call *ssa.Call
+		for _, cl := range an.Calls(fn, false) {
+			cc, ok := cl.(*ssa.Call)
+			if !ok || an.ShortCallee(&cc.Call) != src.callee {
+				continue
+			}
+			if src.arg != "" && !strings.Contains(an.Path(cc.Call.Args[0]), src.arg) {
+				continue
+			}
+			call = cc
+		}
+		key := fkey(fn) + "/exclusion-source/" + src.name
+		if call == nil {
+			r.Fail("PATH", key, c.Pos(fn.Pos()), "the "+src.name+" set is no longer read")
+			continue
+		}
+		set := extract(call, 0)
+		facts := an.Facts{extract(call, 1): an.Nil}
+		onlyThis := func(v ssa.Value) bool {
+			srcs := cellSources(v)
+			if a, ok := v.(*ssa.Alloc); ok { // method receivers take the address of the local holding the set
+				srcs = nil
+				for _, ref := range *a.Referrers() {
+					if st, ok := ref.(*ssa.Store); ok && st.Addr == ssa.Value(a) {
+						srcs = append(srcs, cellSources(st.Val)...)
+					}
+				}
+			}
+			for _, s2 := range srcs {
+				if s2 != set {
+					// the zero value the local starts with does not count as another source
+					if _, isC := s2.(*ssa.Const); isC {
+						continue
+					}
+					if a2, isA := s2.(*ssa.Alloc); isA && a2.Comment == "complit" {
+						continue
+					}
+					return false
+				}
+			}
+			return len(srcs) > 0
+		}
+		for _, cl := range an.Calls(fn, false) {
+			cc, ok := cl.(*ssa.Call)
+			if ok && an.ShortCallee(&cc.Call) == "IsEmpty" && onlyThis(cc.Call.Args[0]) {
+				facts[cc] = an.False
+			}
+		}
+		var feed *ssa.Call
+		reach := an.Explore(fn, an.After(call), facts, func(in ssa.Instruction) bool {
+			cc, ok := in.(*ssa.Call)
+			if ok && an.ShortCallee(&cc.Call) == "ToSliceNoSort" && onlyThis(cc.Call.Args[0]) {
+				feed = cc
+				return true
+			}
+			return false
+		})
+		// and what is ranged there is what is written
+		writes := false
+		if feed != nil {
+			for _, mu := range stores {
+				for x := range backwardAll(mu.Key) {
+					if x == ssa.Value(feed) {
+						writes = true
+					}
+				}
+			}
+		}
+		r.Check(feed != nil && len(reach.Returns()) == 0 && writes, "PATH", key, c.InstrPos(call), "enters the exclusion map on its own", sprintf("the %s CPUs do not always enter the exclusion map (loop over exactly this set found=%v, unavoidable=%v, writes the map=%v): when both node-level sources are declared one of them is left to BE pods", src.name, feed != nil, feed != nil && len(reach.Returns()) == 0, writes))
+	}
 	// closure: Filter(func: return !m[ID]) or, equivalently, FilterNot(func: return m[ID])
 	okClosure := false
 	for _, cl := range an.Calls(fn, false) {
